@@ -271,131 +271,6 @@ def _array_roles(fn):
     return roles
 
 
-class _WEval(Evaluator):
-    def name(self, node):
-        raise AnalysisError("unbound %s" % node.id)
-
-
-def _sparse_paths(body, p1, p2, cs, gi, gj, gv):
-    """Abstract execution of the pair branch over (mirrored key present?, c1 >= c2?)."""
-    owner = cs.owner
-    res = {}
-    for mirrored in (True, "zero", False):
-        for ge in (True, False):
-            env = {cs.weight: Rat.sym("w")}
-            ws_val = Rat(0) if mirrored == "zero" else Rat.sym("ws")
-            out = {"i": [], "j": [], "v": []}
-
-            def test_val(t):
-                if isinstance(t, ast.BoolOp):
-                    vals = [test_val(v) for v in t.values]
-                    if any(v is None for v in vals):
-                        return None
-                    return all(vals) if isinstance(t.op, ast.And) else any(vals)
-                if isinstance(t, ast.UnaryOp) and isinstance(t.op, ast.Not):
-                    v = test_val(t.operand)
-                    return None if v is None else not v
-                if isinstance(t, ast.Compare) and len(t.ops) == 1 and isinstance(t.ops[0], ast.NotIn):
-                    v = test_val(ast.Compare(left=t.left, ops=[ast.In()], comparators=t.comparators))
-                    return None if v is None else not v
-                txt = src(t).replace(" ", "")
-                if txt in ("(%s,%s)in%s.decomposition_dict" % (p2, p1, owner), "(%s,%s)in%s.decomposition_dict.keys()" % (p2, p1, owner)):
-                    return bool(mirrored)
-                if txt in ("%s.decomposition_dict.get((%s,%s),0)!=0" % (owner, p2, p1), "%s.decomposition_dict.get((%s,%s))" % (owner, p2, p1),
-                           "%s.decomposition_dict.get((%s,%s),0)" % (owner, p2, p1)):
-                    return mirrored is True       # present with a non-zero weight only
-                if txt == "%s.counter>=%s.counter" % (p1, p2):
-                    return ge
-                if txt == "%s.counter<=%s.counter" % (p2, p1):
-                    return ge
-                if txt == "%s.counter>%s.counter" % (p1, p2):
-                    return None if ge else False
-                if txt == "%s.counter<%s.counter" % (p1, p2):
-                    return not ge
-                raise AnalysisError("sparse translator: test `%s` outside the analysed fragment" % src(t))
-
-            def run(stmts):
-                for s in stmts:
-                    if isinstance(s, ast.If):
-                        v = test_val(s.test)
-                        if v is None:
-                            raise AnalysisError("sparse translator: strict comparison of indices loses the diagonal")
-                        run(s.body if v else s.orelse)
-                    elif isinstance(s, ast.Assign) and isinstance(s.targets[0], ast.Name):
-                        val = s.value
-                        if isinstance(val, ast.Subscript) and dotted(val.value) == owner + ".decomposition_dict":
-                            k = src(val.slice).replace(" ", "")
-                            if k in ("(%s,%s)" % (p2, p1), "%s,%s" % (p2, p1)):
-                                if not mirrored:
-                                    raise AnalysisError("sparse translator: lookup of an absent mirrored key (KeyError)")
-                                env[s.targets[0].id] = ws_val
-                            elif k in ("(%s,%s)" % (p1, p2), "%s,%s" % (p1, p2)):
-                                env[s.targets[0].id] = Rat.sym("w")
-                            else:
-                                raise AnalysisError("sparse translator: lookup of %s" % src(val))
-                        else:
-                            env[s.targets[0].id] = _WEval(env).ev(val)
-                    elif isinstance(s, ast.Assign) and isinstance(s.targets[0], ast.Tuple):
-                        continue
-                    elif isinstance(s, ast.Assert) or isinstance(s, ast.Pass):
-                        continue
-                    elif isinstance(s, ast.Expr) and isinstance(s.value, ast.Call) and call_name(s.value) == "append":
-                        tgt = dotted(s.value.func.value)
-                        a = s.value.args[0]
-                        if tgt == gv:
-                            out["v"].append(_WEval(env).ev(a))
-                        elif tgt == gi:
-                            out["i"].append(src(a).replace(" ", ""))
-                        elif tgt == gj:
-                            out["j"].append(src(a).replace(" ", ""))
-                        else:
-                            raise AnalysisError("sparse translator: append to %s in the pair branch" % tgt)
-                    else:
-                        raise AnalysisError("sparse translator: statement `%s` outside the analysed fragment" % norm_stmt(s)[:60])
-
-            run(body)
-            state = ({True: "mirrored", "zero": "mirrored-zero", False: "single"}[mirrored], "ge" if ge else "lt")
-            n = {len(out["i"]), len(out["j"]), len(out["v"])}
-            if n == {0}:
-                res[state] = None
-            elif n == {1}:
-                res[state] = (_canon_idx(out["i"][0], p1, p2), _canon_idx(out["j"][0], p1, p2), out["v"][0])
-            else:
-                res[state] = "unbalanced appends %s" % {k: len(v) for k, v in out.items()}
-    return res
-
-
-def _canon_idx(txt, p1, p2):
-    c1, c2 = p1 + ".counter", p2 + ".counter"
-    if txt == c1:
-        return "c1"
-    if txt == c2:
-        return "c2"
-    if txt in ("max(%s,%s)" % (c1, c2), "max(%s,%s)" % (c2, c1)):
-        return "max"
-    if txt in ("min(%s,%s)" % (c1, c2), "min(%s,%s)" % (c2, c1)):
-        return "min"
-    return txt
-
-
-def _same_sparse(got, exp, state):
-    if not isinstance(got, tuple):
-        return False
-    gi, gj, gv = got
-    ei, ej, ev = exp
-    w, ws = Rat.sym("w"), Rat.sym("ws")
-    want_v = (w + ws) / Rat(2) if ev == "(w+ws)/2" else w / Rat(2)
-    if state[0] == "mirrored-zero":
-        want_v = w / Rat(2)
-    if not (isinstance(gv, Rat) and gv.equals(want_v)):
-        return False
-    ge = state[1] == "ge"
-    # row must be the larger index, column the smaller
-    row_ok = gi == "max" or (gi == "c1" and ge) or (gi == "c2" and not ge)
-    col_ok = gj == "min" or (gj == "c2" and ge) or (gj == "c1" and not ge)
-    return row_ok and col_ok
-
-
 # ---------------------------------------------------------------------------------------------------
 # R-LEAFREG
 # ---------------------------------------------------------------------------------------------------
